@@ -16,25 +16,34 @@ HARNESSES = {
 
 def _poly(mode):
     # run 1: dimensions 0..2 (menus of dimension-2 data); run 2: dimension 3 with its own extra menu entries
-    # (the first dimension in which non-adjacent generator pairs and combinatorial adjacency tests occur)
+    # (the first dimension in which non-adjacent generator pairs and combinatorial adjacency tests occur);
+    # run 3: dimension 2, deep phase A over a narrow builder alphabet (reaches lazy states that need 4-5 steps:
+    # stale saturation matrices, pending rows on converted descriptions); in C02 it also applies 4 follow-up
+    # builders to every transformer result, because what an operation leaves behind (stale rows, flags) only
+    # shows in what the next mutator builds on it
     def runs(tier):
         d3 = ["--mode", mode, "--mindim", "3", "--maxdim", "3"]
+        nar = ["--mode", mode, "--mindim", "2", "--maxdim", "2", "--narrow"]
         if tier == "quick":
             if mode == "C01":
-                return [{"harness": "poly", "args": ["--mode", mode, "--depth", "3", "--pool", "24"], "budget": 270},
-                        {"harness": "poly", "args": d3 + ["--depth", "2", "--pool", "24"], "budget": 200}]
-            return [{"harness": "poly", "args": ["--mode", mode, "--depth", "2", "--pool", "36"], "budget": 270},
-                    {"harness": "poly", "args": d3 + ["--depth", "1", "--pool", "16"], "budget": 200}]
+                return [{"harness": "poly", "args": ["--mode", mode, "--depth", "3", "--pool", "24"], "budget": 330},
+                        {"harness": "poly", "args": d3 + ["--depth", "2", "--pool", "24"], "budget": 240},
+                        {"harness": "poly", "args": nar + ["--depth", "4", "--pool", "12"], "budget": 240}]
+            return [{"harness": "poly", "args": ["--mode", mode, "--depth", "2", "--pool", "36"], "budget": 330},
+                    {"harness": "poly", "args": d3 + ["--depth", "1", "--pool", "16"], "budget": 240},
+                    {"harness": "poly", "args": nar + ["--followups", "--depth", "4", "--pool", "4", "--poolsigs", "1", "--reps-per-sig", "6"], "budget": 330}]
         if mode == "C01":
             return [{"harness": "poly", "args": ["--mode", mode, "--depth", "3", "--all-states"], "budget": 3000},
-                    {"harness": "poly", "args": d3 + ["--depth", "3"], "budget": 2400}]
+                    {"harness": "poly", "args": d3 + ["--depth", "3"], "budget": 3000},
+                    {"harness": "poly", "args": nar + ["--depth", "5", "--pool", "24"], "budget": 3000}]
         return [{"harness": "poly", "args": ["--mode", mode, "--depth", "3"], "budget": 3000},
-                {"harness": "poly", "args": d3 + ["--depth", "2", "--pool", "24"], "budget": 2400}]
+                {"harness": "poly", "args": d3 + ["--depth", "2", "--pool", "24"], "budget": 3000},
+                {"harness": "poly", "args": nar + ["--followups", "--depth", "5", "--pool", "8", "--reps-per-sig", "12"], "budget": 3000}]
     return runs
 
 CHECKS = {
-    "C01": {"runs": _poly("C01"), "level": "model_checking", "deadline": {"quick": 470, "thorough": 5400}},
-    "C02": {"runs": _poly("C02"), "level": "model_checking", "deadline": {"quick": 470, "thorough": 5400}},
+    "C01": {"runs": _poly("C01"), "level": "model_checking", "parallel_runs": 3, "deadline": {"quick": 330, "thorough": 3000}},
+    "C02": {"runs": _poly("C02"), "level": "model_checking", "parallel_runs": 3, "deadline": {"quick": 330, "thorough": 3000}},
 }
 
 
